@@ -23,8 +23,9 @@ from .. import c16_gen as P16, c17_gen as P, snap as S
 from ..evidence import Run, canon_hash
 
 PID = "C17"
-SHARDS = {"quick": 6, "thorough": 16}
-N = {"quick": 2400, "thorough": 60000}
+SHARDS = {"quick": 8, "thorough": 16}
+SHARD_TIMEOUT = {"quick": 900, "thorough": 3000}
+N = {"quick": 2000, "thorough": 60000}
 
 M_D8 = "check_input-int-getter-ignores-validate-options"
 M_INT_KW = "check_input-int-getter-argument-passed-by-keyword"
@@ -62,13 +63,13 @@ def gen_scenario(rng):
     backend = "polars" if rng.random() < 0.15 else "pandas"
     options = P.gen_options(rng)
     if backend == "polars":
-        # polars: head/tail/sample go through PolarsSchemaBackend.subsample,
-        # whose .unique() returns rows in a run-dependent order (C20's
-        # subject); only lazy is varied here so that observations stay
-        # reproducible
+        # polars: inplace is meaningless; sample is left to C20.  head/tail
+        # are exercised, but a polars subsample whose row order is
+        # run-dependent (C20's subject) would make observations
+        # irreproducible: the reference is therefore executed twice for these
+        # and the variant is only judged when it reproduces itself
         options["inplace"] = False
         options["sample"] = options["random_state"] = None
-        options["head"] = options["tail"] = None
     scn = {"deco": deco, "backend": backend, "options": options,
            "tables": {}, "specs": {}, "models": {}}
     tnames = list(P.TEMPLATES)
@@ -710,6 +711,14 @@ def one_case(run, rng, scn=None, variants=None):
             run.violation("harness-error", {"scenario": scn, "variant": var,
                                             "exc": repr(e)[:300]}, None)
             continue
+        if scn["backend"] == "polars" and (
+                scn["options"]["head"] is not None or scn["options"]["tail"] is not None):
+            ref2 = execute(scn, var, True)
+            if (ref2.get("outcomes"), ref2["rec"]["calls"]) != (
+                    ref.get("outcomes"), ref["rec"]["calls"]):
+                run.count("undecided:polars-subsample-not-reproducible(C20)")
+                continue
+            run.count("polars_subsample_reference_reproducible")
         if "reference_error" in ref:
             run.count("reference_error")
             run.violation("harness-error", {"scenario": scn, "variant": var,
